@@ -60,6 +60,18 @@ def gen(rng, tier, spec):
             sched += [(1, 0)] * rng.range(1, 4) + [(0, 0)] * rng.range(0, 4)
         sched += R.sched_random(rng, len(progs), rng.range(0, 20), ((14, 0), (2, 1), (2, 2)))
         return {'cfg': cfg, 'progs': progs, 'sched': sched}
+    if rng.below(15) == 0:
+        # boundary-aimed: two overlapping reset() calls, the first one pre-empted around the unlock / trigger() /
+        # re-lock of its loop while the second completes (so the first one's trigger() finds the variable inactive),
+        # a third thread re-activates and blocks in wait() before the first reset() re-acquires activeLock: that
+        # reset() must re-test `triggered`, trigger the new cycle and only then deactivate
+        progs = [[[RESET]] + _role_prog(rng, 'resetter', rng.range(0, 1)),
+                 [[RESET]] + _role_prog(rng, 'driver', rng.range(0, 1)),
+                 [[ACTIVATE], [rng.pick([WAIT, WAIT, WAITFOR])]] + _role_prog(rng, 'waiter', rng.range(0, 1))]
+        sched = [(0, 0)] * rng.range(4, 6) + [(1, 0)] * rng.range(12, 15) + [(0, 0)] * rng.range(0, 2)
+        sched += [(2, 0)] * rng.range(13, 17) + [(0, 0)] * rng.range(2, 12)
+        sched += R.sched_random(rng, 3, rng.range(0, 15), ((14, 0), (2, 1), (2, 2)))
+        return {'cfg': [1], 'progs': progs, 'sched': sched}
     nt = rng.weighted([(1, 1), (5, 2), (6, 3), (3, 4)])
     shape = rng.below(10)
     progs = []
@@ -301,13 +313,20 @@ def mon_lost_wakeup(case, lines):
             return ('deadlock: thread %d sleeps in %s since line %d and was never woken by the %s=true store at line %d'
                     % (t, OPNAME[op], i, name, later[0][0]))
         if flag == 'T':
-            # a reset() that started after the waiter went to sleep and deactivated the variable must have
-            # forced (or seen) the trigger, which wakes the waiter
+            # reset() deactivates only after it has seen (or made) triggered = true, and that load cannot lie after
+            # the moment a still-blocked waiter went to sleep: a reset() that stores activated=false while the waiter
+            # sleeps must have released it
             for j, v2, t2, ins2 in vw.stores['A']:
-                if v2 == 0 and j > i and invoke_line.get(ins2, -1) > i and opof.get(ins2) == RESET:
+                if v2 != 0 or j <= i or opof.get(ins2) != RESET:
+                    continue
+                seen = [e for e in vw.evs if e[7] == ins2 and e[2] == K['LOAD'] and vw.role.get(e[3]) == 'T' and e[0] < j]
+                if not seen or seen[-1][4] == 0 or seen[-1][0] > i:
+                    why = ('without having loaded triggered' if not seen else
+                           'although its last load of triggered (line %d) read false' % seen[-1][0] if seen[-1][4] == 0 else
+                           'having read triggered=true at line %d' % seen[-1][0])
                     return ('deadlock: thread %d sleeps in %s since line %d although the reset() invoked at line %d '
-                            'deactivated the variable at line %d: reset did not release the waiter'
-                            % (t, OPNAME[op], i, invoke_line[ins2], j))
+                            'deactivated the variable at line %d %s: reset did not release the waiter'
+                            % (t, OPNAME[op], i, invoke_line.get(ins2, -1), j, why))
     return None
 
 
